@@ -124,7 +124,7 @@ struct Outcome {
 }
 
 fn run_cap<const CAP: usize>(fail_mask: u64, input: &[u8]) -> (Outcome, u64) {
-    let mut iface = na::I::new();
+    let mut iface = na::I::<4>::new();
     iface.fail_mask = fail_mask;
     let mut w: heapless::Vec<u8, CAP> = heapless::Vec::new();
     let (_, allocs) = counted(|| {
@@ -145,7 +145,7 @@ fn run_cap<const CAP: usize>(fail_mask: u64, input: &[u8]) -> (Outcome, u64) {
 }
 
 fn process_n<const N: usize>(fail_mask: u64, stream: &[u8], reads: &[usize]) -> (Outcome, u64) {
-    let mut iface = na::I::new();
+    let mut iface = na::I::<4>::new();
     iface.fail_mask = fail_mask;
     let mut adapter = SliceAdapter {
         stream,
